@@ -282,3 +282,81 @@ func H_C17_mldist_skeleton_deep() {
 func K_C17_mldist_minus_one() {
 	vfC17Skeleton(2, 1, 1)
 }
+
+// vfC17FreqRef: the empirical frequencies as FastME defines them (the routine is a port): every
+// selected site of every row adds its weight to its amino acid, or spreads it evenly over the 20
+// states when the symbol is not one of them; if some count is below 1/20 one pseudo-count is
+// added to every state; the counts are normalised.
+func vfC17FreqRef(rows [][]uint8, w []float64, sel []bool) []float64 {
+	num := make([]float64, 20)
+	ns := float64(len(num)) // (not the literal 1.0/20: a folded constant is the nearest double, the engine's arithmetic is exact)
+	letters := []uint8{'A', 'R', 'N', 'D', 'C', 'Q', 'E', 'G', 'H', 'I', 'L', 'K', 'M', 'F', 'P', 'S', 'T', 'W', 'Y', 'V'}
+	for _, row := range rows {
+		for j, c := range row {
+			if !sel[j] {
+				continue
+			}
+			idx := -1
+			for k, l := range letters {
+				if c == l {
+					idx = k
+				}
+			}
+			if idx >= 0 {
+				num[idx] += w[j]
+			} else {
+				for k := range num {
+					num[k] += w[j] / ns
+				}
+			}
+		}
+	}
+	low := false
+	for _, v := range num {
+		low = low || v < 1/ns
+	}
+	sum := 0.0
+	for k := range num {
+		if low {
+			num[k]++
+		}
+		sum += num[k]
+	}
+	for k := range num {
+		num[k] /= sum
+	}
+	return num
+}
+
+// H_C17_aafreq: the empirical amino-acid frequencies (input of the model when frequencies are estimated from the data) count every selected residue whatever its position: they equal the FastME definition, so they do not depend on the order of rows or columns.
+// bounds: (n,L) in {(1,1),(1,2),(2,1),(2,2),(1,3)}; every residue one of A, R, '-', X (enumerated: the counts are then linear in the weights); every site selected; weights nil or symbolic dyadic k/2, k=0..4
+// outside: larger alignments; the use of the frequencies by the optimiser (not applicable)
+func H_C17_aafreq() {
+	shapes := [5][2]int{{1, 1}, {1, 2}, {2, 1}, {2, 2}, {1, 3}}
+	sh := shapes[nondetRange(0, 4)]
+	n, L := sh[0], sh[1]
+	letters := []uint8{'A', 'R', '-', 'X'}
+	al := align.NewAlign(align.AMINOACIDS)
+	rows := make([][]uint8, n)
+	for r := 0; r < n; r++ {
+		rows[r] = make([]uint8, L)
+		for j := range rows[r] {
+			rows[r][j] = letters[nondetRange(0, 3)]
+		}
+		if err := al.AddSequenceChar(vfC17Names[r], append([]uint8{}, rows[r]...), ""); err != nil {
+			panic("harness: cannot build alignment: " + err.Error())
+		}
+	}
+	_, w := vfC17Weights(L)
+	sel := make([]bool, L)
+	for j := range sel {
+		sel[j] = true
+	}
+	got, err := aaFrequency(al, w, sel)
+	verifAssert(err == nil && len(got) == 20, "20 frequencies, no error")
+	verifReach("frequencies")
+	want := vfC17FreqRef(rows, w, sel)
+	for _, k := range []int{0, 1, 2} { // A, R and one state absent from the rows: the other 17 are like it
+		verifAssert(vfC17Close(got[k], want[k]), "frequency = normalised weighted count (ambiguous symbols spread evenly), independent of the position of gaps")
+	}
+}
